@@ -17,7 +17,8 @@ RULE = (
     "Hypothesis-generated PipeLang programs x store {memory, local, local+LRU} x one step class: no-op re-evaluation, "
     "restart, edit-then-revert, module rename (code copied to another accepted module), entry-style switch (dds.eval <-> "
     "direct data-function call), a single edit E1 variable / E2 body or comment / E3 literal at a generated target, "
-    "E4 unrelated definition, E5 reordering, E6 non-accepted code (also value-changing). After the step the pipeline is "
+    "E4 unrelated definition, E5 reordering, E6 non-accepted code (also value-changing); one case in twelve plants two kept "
+    "functions sharing a plain helper (one run-time argument, one defaulted parameter) and edits what only the first reads. After the step the pipeline is "
     "evaluated and the execution log (recorded through a non-accepted module) is compared with the log allowed by the "
     "dependency cone: kept nodes with zero/literal arguments may run only if the edit target is in their static closure "
     "(or sits in the edited function); run-time-argument nodes are conservatively allowed for accepted-code edits and "
@@ -38,15 +39,23 @@ def case_strategy(opts):
 
     @st.composite
     def gen(draw):
-        prog = draw(G.programs(opts))
+        focus = draw(st.integers(0, 11)) == 0
+        prog = draw(G.programs(dict(opts, force_motif=2) if focus else opts))
         ents = G.entries(prog)
         root, style = draw(st.sampled_from(ents[-2:] if len(ents) > 1 else ents))
         kind, cache = draw(st.sampled_from(STORES))
         step = draw(st.sampled_from(STEP_KINDS))
+        if focus:
+            # planted shape (two kept functions sharing a helper): edit what only the first of them reads
+            root, style, step = len(prog["funcs"]) - 1, "eval", draw(st.sampled_from(["edit", "revert"]))
         if step == "restart" and kind == "memory":
             step = "noop"
         case = {"prog": prog, "store": [kind, cache], "root": root, "style": style, "step": step}
-        if step in ("edit", "revert"):
+        if focus:
+            vi = prog["funcs"][1]["body"][0][1]
+            cur = G.canon_key(G.dec(prog["vars"][vi]["val"]))
+            case["edit"] = ["setvar", vi, G.enc(draw(st.sampled_from([v for v in G._var_pool(opts) if G.canon_key(v) != cur])))]
+        elif step in ("edit", "revert"):
             case["edit"] = draw(G.edits(prog, root, kinds=["setvar", "bump", "pad", "setlit", "bumpcls"], opts=opts))
         elif step == "outside":
             case["edit"] = draw(G.edits(prog, root, kinds=["unrelated", "reorder", "ext_pad", "ext_val", "ext_ver"], opts=opts))
